@@ -238,6 +238,7 @@ func (fx *FuncCtx) callStatic(st *State, x *ssa.Call, callee *ssa.Function) (for
 		if r != nil {
 			f.vals[x] = r
 		}
+		fx.afterCall(st, x)
 		return nil, false
 	}
 	// contract?
